@@ -5,7 +5,7 @@ the model pytree before and after every optimiser step (the boundary is concrete
 pmapped) and asserts that every invariant-filter leaf changed by one common factor (zeros stay zero) and
 that some parameter moved; recorders on get_batches and StopCondition.stop count the history. The model
 returned by the real ml.train is then put through C07's layer-synchronised and end-to-end equivariance
-monitors for every g."""
+monitors for every g. Histories with and without a validation pass after each epoch; models that are equivariant by construction, by always-on group averaging, and by group averaging in inference mode only."""
 from __future__ import annotations
 
 import numpy as np
